@@ -17,7 +17,7 @@ from vf.common import CaseResult, Check, Scratch, rng_for
 from vf.interpose import Interposer
 
 HISTORIES = ["clean", "orphan_next", "orphan_equal_older", "orphan_equal_newer", "clean_expired"]
-OPS = ["load", "create", "append", "gc"]
+OPS = ["load", "create", "append", "gc", "append_lose_again"]
 
 
 def pointer_grammar(cur: str, old: str, orph: Optional[str], n: int, tier: str) -> List[Tuple[str, str, Optional[bytes]]]:
@@ -49,6 +49,10 @@ def pointer_grammar(cur: str, old: str, orph: Optional[str], n: int, tier: str) 
         ("upper", "unparseable", cur.upper().encode()),
         ("megabyte", "unparseable", b"A" * (1 << 20)),
         ("json", "unparseable", b'{"version": 3}'),
+        ("unicode_superscript_digit", "unparseable", "\u00b2".encode()),          # str.isdigit() is True, int() fails
+        ("unicode_arabic_digit", "unparseable", "\u0663".encode()),              # isdigit() True, int() == 3
+        ("fullwidth_digits", "unparseable", "\uff13".encode()),
+        ("bom_current", "unparseable", b"\xef\xbb\xbf" + cur.encode()),
     ]
     prefixes = range(1, len(cur)) if tier == "thorough" else [1, 2, 3, len(cur) // 2, len(cur) - 14, len(cur) - 5, len(cur) - 1]
     for k in prefixes:
@@ -182,10 +186,23 @@ class C10(Check):
                         t = ds.create_table(root, schema=other)
                     else:
                         t = ds.load_table(root)
-                    if case["op"] == "append":
+                    if case["op"] in ("append", "append_lose_again"):
+                        vers_before = reader.metadata_versions(reader.Blobs.local(root))
                         t.append_records(tables.rows([9001]))
                         exp_rows = sorted(exp_rows + reader.canon_rows(tables.rows([9001])))
                         res.count("appends_after_damage")
+                        # a commit must never publish a version number below one that already exists on disk:
+                        # the next pointer loss would resolve to the older file and drop this commit
+                        newptr = reader.pointer_target(reader.Blobs.local(root))
+                        m = reader._META_RE.match(newptr or "")
+                        maxv = max((v for v, _n in vers_before), default=-1)
+                        if m and int(m.group(1)) < maxv and pclass not in ("stale", "names-uncommitted"):
+                            res.count("cases_judged")
+                            res.violation(f"commit-version-went-backwards:{sigctx}",
+                                          f"append after pointer damage published {newptr} although v{maxv} exists on disk", wit)
+                            return
+                        if case["op"] == "append_lose_again":
+                            os.remove(ppath)       # the pointer is lost a second time
                     elif case["op"] == "gc":
                         tables.age_tree(root, 7200, only=["data", "metadata/manifests"])
                         try:
@@ -220,7 +237,7 @@ class C10(Check):
                     res.violation(self._sig("uncommitted-surfaced", sigctx),
                                   f"a snapshot that was never committed ({surfaced}) is now part of the table", wit)
                     return
-                if case["op"] != "append":
+                if case["op"] not in ("append", "append_lose_again"):
                     if lib_ids != exp_ids or lib_cur != C["current"]:
                         older = set(lib_ids) < set(exp_ids)
                         res.violation(self._sig('older-version-served' if older else 'snapshot-list-changed', sigctx),
@@ -251,7 +268,7 @@ class C10(Check):
                         res.violation(f"retained-snapshot-changed:{sigctx}", f"snapshot {s.id} content changed or unreadable: {s.error}", wit)
                         return
                 # the version finally current must descend from a committed one
-                if tv.pointer not in b["flipped"] and case["op"] != "append" and tv.pointer != b["cur"]:
+                if tv.pointer not in b["flipped"] and case["op"] not in ("append", "append_lose_again") and tv.pointer != b["cur"]:
                     if b["orph"] is not None and tv.pointer == b["orph"]:
                         res.violation(f"uncommitted-surfaced:{sigctx}", "pointer now names the uncommitted file", wit)
                         return
